@@ -13,3 +13,13 @@ package mgr
 //@   option trusted pure nilrecv
 //@ func WorkerCtx.LogAttrs
 //@   option trusted pure nilrecv
+
+// ---- module groups (C20) ---------------------------------------------------------------------------
+// Every Module implementation reads its manager field: Manager() must not be called on a nil interface
+// or on an interface holding a nil pointer (optional modules such as the tun device are passed as typed nil).
+//@ func Module.Manager
+//@   requires receiver-not-nil [C20]: nonnil(recv)
+
+// NewGroup is total: nil and typed-nil entries are skipped, never dereferenced.
+//@ func NewGroup
+//@   ensures group [C20]: result != nil
